@@ -36,6 +36,11 @@ def run(ctx, pid, imports, items, extra_defs=None):
     failed_fn = []
     for it in items:
         try:
+            if it.get("kwarg"):
+                gen += pysrc.translate_kwarg(repo, it["file"], it["qualname"], it["kwarg"], it["name"], it["params"], it["rettype"],
+                                             calls=it.get("calls"), consts=it.get("consts"))
+                ctx.count("srctie:translated")
+                continue
             gen += pysrc.translate(repo, it["file"], it["qualname"], it["name"], it["params"], it["rettype"],
                                    calls=it.get("calls"), consts=it.get("consts"), self_attrs=it.get("self_attrs"),
                                    state=it.get("state", ()), attrs=it.get("attrs"))
